@@ -99,11 +99,12 @@ static void do_emit(int code) {
 }
 
 static void s_apply(int ev) {
-    if (ev >= EMIT_BASE) { if (M6.arb.v != ARB_NONE && M6.arb.v != ARB_TOP) do_emit(ev); return; }
+    if (ev >= EMIT_BASE) { if (M6.arb.v != ARB_NONE && M6.arb.v != ARB_TOP && !(M6.arb.v & ARB_OPENED) && M6.apparent != 0xFF) do_emit(ev); return; }
     const pev *e = &SV[ev];
     arb before = M6.arb;
     int r = arb_step(&M6.arb, e);
     if (e->opcode == 0 && r == 1 && before.v == ARB_NONE) M6.apparent = e->ethsrc;
+    if (e->opcode == 0 && r == 1 && (before.v & ARB_OPENED) && before.v != ARB_TOP) M6.apparent = 0xFF;   /* session opened by a command: which next hop counts is not stated */
     drv_linux(e, 0);
 }
 static void s_root(void) { M6.arb.v = ARB_NONE; M6.apparent = 0; }
@@ -133,7 +134,7 @@ static void run_family_here(void) {
     free(s);
     e1_manual_path(&cfg6, NULL, 0);
 }
-static void on_new_state6(int depth) { (void)depth; if (M6.arb.v != ARB_NONE && M6.arb.v != ARB_TOP) run_family_here(); }
+static void on_new_state6(int depth) { (void)depth; if (M6.arb.v != ARB_NONE && M6.arb.v != ARB_TOP && !(M6.arb.v & ARB_OPENED) && M6.apparent != 0xFF) run_family_here(); }
 
 static void build_state_alphabet(void) {
     NSV = 0;
